@@ -91,6 +91,22 @@ def _random_stratum(ctx, name, cfg, n, max_atoms, closure_ok=True):
     ctx.stratum = name
     MM.clear_caches()
     rnd = ctx.rnd
+    if name == "pyin":
+        # history: the same comma lists used earlier in the process on *other* version variables (outside the
+        # quantifier themselves, executed unmonitored) - process-wide state keyed on the literal must not leak
+        from dep_logic.markers import parse_marker
+
+        with MM.oracle():
+            for lst in MW.PYIN_LISTS:
+                for var, bound in (("python_full_version", "3.8.1"), ("platform_release", "4.0")):
+                    for op in ("in", "not in"):
+                        try:
+                            m = parse_marker(f'{var} {op} "{lst}"')
+                            m & parse_marker(f'{var} >= "{bound}"')
+                            m | parse_marker(f'{var} < "{bound}"')
+                        except Exception:  # noqa: BLE001
+                            pass
+        ctx.shape("pyin:history-prelude")
     closure = []
     t0 = ctx.elapsed()
     limit = (22 if ctx.tier == "quick" else 200) * (1.0 if name == "main" else 0.35)
